@@ -109,7 +109,20 @@ Clean(log, proc) ==
    /\ \A i \in DOMAIN log : (log[i].ans \notin {"err", "parseerr", "lexerr", "symerr"})
    /\ \A i \in DOMAIN log : (log[i].ev = "parse" => Len(log[i].mods) > 0)
    /\ \A i \in Idx(log, "get") : \E j \in Idx(log, "get") : log[j].name = log[i].name /\ log[j].ans = "data"
+\* ground truth from the call log (not from the reported statuses): a name that no source delivered an acceptable
+\* copy of (and that is not a module some other file supplied), or a module whose code generation failed ...
+NamesIn(log) == {log[i].name : i \in DOMAIN log}
+SrcFailed(log, n) == /\ \E i \in Idx(log, "get") : log[i].name = n
+                     /\ ~\E p \in Idx(log, "parse") : log[p].name = n /\ AcceptedParse(log, p)
+                     /\ ~\E s \in Idx(log, "sym") : log[s].name = n /\ log[s].ans = "ok"
+GenFailed(log, n) == \E g \in Idx(log, "gen") : log[g].name = n /\ log[g].ans # "ok"
+Lent(log, n) == \E b \in Idx(log, "bor") : log[b].name = n /\ log[b].ans = "ok"
+\* ... and that no borrower supplied: it "cannot be found, parsed or code-generated and cannot be borrowed"
+Unresolved(log) == {n \in NamesIn(log) : (SrcFailed(log, n) \/ GenFailed(log, n)) /\ ~Lent(log, n)}
+\* the bad ones keep their failed / missing status (whatever ignoreErrors says)
+BadKeepStatus(log, proc, ended) == ended = "return" => \A n \in Unresolved(log) : St(proc, n) \in {"failed", "missing"}
 AllOrNothing(log, proc, o, ended) == ended = "return" =>
+   /\ (Unresolved(log) # {} /\ ~o.ignoreErrors) => Idx(log, "put") = {}
    /\ (Bad(log, proc) /\ ~o.ignoreErrors) =>
          /\ Idx(log, "put") = {}
          /\ \A i \in Idx(log, "gen") : log[i].ans = "ok" => St(proc, log[i].name) \in {"unprocessed"}
@@ -168,6 +181,8 @@ Verbatim(log, proc, o, ended) == ended = "return" =>
       \/ /\ St(proc, log[b].name) \in {"borrowed", "failed"}
          /\ (St(proc, log[b].name) = "failed") => WriterFailed(log, log[b].name)
          /\ o.writeMibs => \E p \in Idx(log, "put") : log[p].name = log[b].name /\ log[p].text = log[b].text
+\* status borrowed only for a module a borrower actually supplied
+BorrowedMeansLent(log, proc, ended) == ended = "return" => \A m \in DOMAIN proc : proc[m].st = "borrowed" => Lent(log, m)
 NeverReplaceCompiled(log) == \A p \in Idx(log, "put") :
    GenOk(log, log[p].name) => \E g \in Idx(log, "gen") : log[g].name = log[p].name /\ log[g].text = log[p].text
 \* a requested name that failed / is missing is offered to the borrowers, noDeps or not
